@@ -63,6 +63,7 @@ func run(args []string) {
 	nomerge := fs.Bool("nomerge", false, "do not merge states (debugging)")
 	nofeas := fs.Bool("nofeas", false, "skip feasibility checks at forks")
 	unwind := fs.Int("unwind", 300, "loop unwinding bound per frame")
+	maxenum := fs.Int("maxenum", 16, "how many values of a symbolic index / size are enumerated (case split) before giving up")
 	timed := fs.Bool("timed", false, "timed semantics: computation takes no time, timers fire exactly when due, earliest first")
 	boundsFlag := fs.String("bounds", "", "harness size parameters k=v,k=v overriding the vrt.Bound defaults")
 	progress := fs.Bool("progress", false, "print progress lines")
@@ -126,6 +127,7 @@ func run(args []string) {
 			e.FeasCheck = !*nofeas
 			e.Unwind = *unwind
 			e.Timed = *timed
+			e.MaxEnum = *maxenum
 			e.Bounds = map[string]int{}
 			for _, kv := range strings.Split(*boundsFlag, ",") {
 				if k, v, ok := strings.Cut(kv, "="); ok {
